@@ -123,7 +123,7 @@ func evaluate(c *Case) *verdict {
 					other = base["json"]
 				}
 				if other == nil {
-					v.infra = fmt.Sprintf("%s: the first run on the module did not end within %v", cfg, res.limit)
+					v.infra = fmt.Sprintf("%s: the first run on the module did not end within %v (machine overloaded?); goroutine dump after SIGQUIT:\n%s", cfg, res.limit, dumpSummary(res.stderr))
 					return true
 				}
 				v.msg = hangMsg(c, res, other)
@@ -240,7 +240,12 @@ func evaluate(c *Case) *verdict {
 		ev.Count("race_run_wall_ms", int(res.wall.Milliseconds()))
 		if res.timedOut && !res.raced() {
 			v.msg = hangMsg(c, res, base["json"])
-			reduce(v.msg, func(r *Case) { r.Det = []RunCfg{base["json"].cfg}; r.Race = []RunCfg{cfg} })
+			reduce(v.msg, func(r *Case) {
+				if b := base["json"]; b != nil {
+					r.Det = []RunCfg{b.cfg}
+				}
+				r.Race = []RunCfg{cfg}
+			})
 			return v
 		}
 		if res.raced() {
@@ -278,12 +283,12 @@ func evaluate(c *Case) *verdict {
 		}
 		if res.timedOut {
 			v.msg = hangMsg(c, res, base["json"])
-			reduce(v.msg, func(r *Case) { r.Singles = []string{p}; r.SProcs = c.SProcs; r.Det = c.Det[:1] })
+			reduce(v.msg, func(r *Case) { r.Singles = []string{p}; r.SProcs = c.SProcs; r.Det = firstDet(c) })
 			return v
 		}
 		if res.exit != 0 && res.exit != 1 {
 			v.msg = fmt.Sprintf("%s: exit status %d although ./... succeeded\nstderr: %s", cfg, res.exit, trunc(res.stderr, 2000))
-			reduce(v.msg, func(r *Case) { r.Singles = []string{p}; r.SProcs = c.SProcs; r.Det = c.Det[:1] })
+			reduce(v.msg, func(r *Case) { r.Singles = []string{p}; r.SProcs = c.SProcs; r.Det = firstDet(c) })
 			return v
 		}
 		ps, err := parseJSON(res.stdout, dir)
@@ -410,6 +415,30 @@ func hangMsg(c *Case, res *runResult, other *runResult) string {
 	}
 	return fmt.Sprintf("a run did not end within %v while another run on the same module ended after %v (-tests=%v).\nnot ending: %s (%s)\nended: %s\nstderr of the killed run (goroutine dump after SIGQUIT):\n%s",
 		res.limit, other.wall.Round(time.Millisecond), c.Tests, res.cfg, res.bin, other.cfg, trunc(res.stderr, 5000))
+}
+
+// dumpSummary keeps the stack of goroutine 1 and the runner frames of a goroutine dump.
+func dumpSummary(dump string) string {
+	var sb strings.Builder
+	for _, g := range strings.Split(dump, "\n\n") {
+		if strings.HasPrefix(g, "goroutine 1 ") || strings.Contains(g, "lintcmd/runner.") {
+			sb.WriteString(trunc(g, 1200) + "\n\n")
+		}
+		if sb.Len() > 6000 {
+			break
+		}
+	}
+	if sb.Len() == 0 {
+		return trunc(dump, 2000)
+	}
+	return sb.String()
+}
+
+func firstDet(c *Case) []RunCfg {
+	if len(c.Det) == 0 {
+		return nil
+	}
+	return c.Det[:1]
 }
 
 func equalLines(a, b []string) bool {
